@@ -152,7 +152,9 @@ def judge(acc, kind, seq, r, text, seen):
             d = _p.PLSSDesc('T154N-R97W ' + text + ': NE/4')
             got_tracts = [(t.sec, t.desc) for t in d.tracts]
             wf = list(d.w_flags)
-            obs = {'find_sec': got_find, 'tracts': got_tracts}
+            d2 = _p.PLSSDesc('NE/4 of ' + text + ', T154N-R97W')
+            obs = {'find_sec': got_find, 'tracts': got_tracts, 'tracts_desc_STR': [(t.trs, t.desc) for t in d2.tracts],
+                   'wf2': list(d2.w_flags)}
         else:
             e = [f"L{x}" for x in exp]
             t = _p.Tract(text, parse_qq=True)
@@ -173,6 +175,13 @@ def judge(acc, kind, seq, r, text, seen):
             return
         if any(dsc != 'NE/4' for _, dsc in obs['tracts']):
             acc.violation('plssdesc_shared_desc', f"C05:plssdesc_shared_desc:{text}", case, got=obs['tracts'])
+            return
+        if obs['tracts_desc_STR'] != [(f"154n97w{x}", 'NE/4') for x in e]:
+            acc.violation('plssdesc_sections_desc_STR', f"C05:plssdesc_sections_desc_STR:{text}", case, got=obs['tracts_desc_STR'],
+                          exp=[(f"154n97w{x}", 'NE/4') for x in e])
+            return
+        if desc_range and 'nonsequential_sections' not in obs['wf2']:
+            acc.violation('nonsequential_warning_missing', f"C05:nonsequential_warning_missing:desc_STR:{text}", case, got=obs['wf2'])
             return
         flag = 'nonsequential_sections'
     else:
